@@ -128,7 +128,7 @@ func (p Proxy) ListenAndServe(ctx context.Context) error {
 			udp, err := lc.ListenPacket(ctx, "udp", addr)
 			if err == nil {
 				if register(udp.Close) {
-					err = p.serveUDP(udp, inflightRequests)
+					err = p.serveUDP(ctx, udp, inflightRequests)
 				} else {
 					_ = udp.Close()
 					err = context.Canceled
